@@ -187,6 +187,14 @@ def syscall_monitor(evs, base, folder, decoy, rejected):
     bad = []
     real_folder = os.path.realpath(folder)
     prefixes = read_prefixes(folder)
+    locks = [e for e in evs if e.call == "flock" and re.search(r"LOCK_SH|LOCK_EX", e.args)]
+    if rejected:
+        # parse first, on the implementation: the only lock a rejected request of a logged-in user ever takes is the shared
+        # one of the gate's principal look-up; the handler must not have reached its own acquire_lock
+        if any("LOCK_EX" in e.args for e in locks):
+            bad.append("request that must be rejected took the exclusive storage lock: flock(%s)" % [e for e in locks if "LOCK_EX" in e.args][0].args[:100])
+        elif len(locks) > 1:
+            bad.append("request that must be rejected took the storage lock %d times (gate: once)" % len(locks))
     for e in evs:
         if e.call == "connect":
             bad.append("connect(%s)" % e.args[:120])
@@ -289,6 +297,11 @@ def evaluate(ctx, base, decoy, reqs, cases, results, windows, record=True):
             what.append("body declaring an entity was not rejected: status %s" % st)
         if res.get("resp_leak"):
             what.append("decoy content in the response")
+        if rejected:
+            rb = res.get("body") or ""
+            echo = next((rb[i:i + 8] for i in range(max(0, len(rb) - 7)) if rb[i:i + 8] in c["text"]), None)
+            if echo is not None:
+                what.append("the response to a rejected body repeats part of the body (%r): %r" % (echo, rb[:160]))
         if res.get("store_leak"):
             what.append("decoy content stored")
         if (rejected or c["declares"]) and prev_dump is not None and res["dump"] != prev_dump:
@@ -347,6 +360,7 @@ def _run(ctx, base):
         ctx.obligation("trace:driver-ran", False, out[-1500:])
         return
     ctx.obligation("trace:driver-ran", True)
+    ctx.log("driver under strace finished")
     ctx.traces_validated = len([c for c in cases if c["mark"] in windows])
     # ---------------------------------------------------------------- coverage
     for c in cases:
@@ -369,6 +383,7 @@ def _run(ctx, base):
     # ---------------------------------------------------------------- 3. monitors
     found = evaluate(ctx, base, decoy, reqs, cases, results, windows)
     ctx.extra["monitor_failures"] = len(found)
+    ctx.log("monitors done: %d failures" % len(found))
     for what, c, res in found[:3]:
         ctx.violation("C19 %s %s (%s, %s): %s" % (c["method"], c["path"], c["kind"], c["charset"], what), replay_of(c, res))
     if ctx.extra.get("restore_mismatch"):
@@ -410,7 +425,6 @@ def replay(ctx, path):
             f.write(SECRET + "\n")
         body = base64.b64decode(rp["body_b64"])
         # the decoy path of the original run is gone: point file: references at the new decoy
-        body_text = None
         m = re.search(rb"/tmp/rv-c19-[A-Za-z0-9_]+/decoy-c19\.txt", body)
         if m:
             body = body.replace(m.group(0), decoy.encode())
@@ -425,7 +439,8 @@ def replay(ctx, path):
         res = results["c0"]
         declares = b"<!ENTITY" in body or "<!ENTITY" in body.decode("utf-16", "ignore")
         c = dict(idx=0, mark="c0", method=rp["method"], path=rp["path"], kind=rp.get("kind"), charset=rp.get("charset"),
-                 declares=declares, text=body_text or "", data=body, ctype=rp.get("ctype"))
+                 declares=declares, data=body, ctype=rp.get("ctype"),
+                 text=body.decode("utf-16" if body[:2] in (b"\xff\xfe", b"\xfe\xff") else "latin-1", "replace"))
         found = evaluate(ctx, base, decoy, reqs, [c], results, windows, record=False)
         print("status %s, %.3f s, peak RSS growth %d kB, response %r" % (
             res.get("status"), res.get("dt", 0), res.get("rss1", 0) - res.get("rss0", 0), (res.get("body") or "")[:120]))
